@@ -116,8 +116,8 @@ def unify(patterns: Sequence[str], stmts: Sequence[Tuple[str, ast.AST]], bound: 
         parts = _split_parallel_pattern(p_)
         split_pats.extend(parts)
         orig_index.extend([k] * len(parts))
-    patterns = split_pats
-    stmts = _split_parallel_stmts(stmts)
+    patterns = [_flip_pattern(p_) for p_ in split_pats]
+    stmts = _flip_stmts(_split_parallel_stmts(stmts))
 
     def together(a, b_, strict):
         """components of one parallel pattern must come from one source statement (strict) or at least from one block"""
@@ -161,6 +161,47 @@ def unify(patterns: Sequence[str], stmts: Sequence[Tuple[str, ast.AST]], bound: 
     # one matched node per original pattern (callers index `used` by pattern)
     firsts = [used[i] for i in range(len(used)) if i == 0 or orig_index[i] != orig_index[i - 1]]
     return b, firsts
+
+
+class _FlipGt(ast.NodeTransformer):
+    """a > b -> b < a ; a >= b -> b <= a  (the orientation sa/canon.py uses in its views)"""
+
+    def visit_Compare(self, n):
+        self.generic_visit(n)
+        if len(n.ops) == 1 and isinstance(n.ops[0], (ast.Gt, ast.GtE)):
+            return ast.copy_location(ast.Compare(left=n.comparators[0], ops=[ast.Lt() if isinstance(n.ops[0], ast.Gt) else ast.LtE()], comparators=[n.left]), n)
+        return n
+
+
+def _flip_pattern(p_: str) -> str:
+    if ">" not in p_:
+        return p_
+    head = ""
+    body = p_
+    for h in ("if:", "while:"):
+        if p_.strip().startswith(h):
+            head, body = h + " ", p_.strip()[len(h):]
+    try:
+        t = ast.parse(body.replace("$", "__mv_").strip(), mode="eval" if head else "exec")
+    except SyntaxError:
+        return p_
+    return head + ast.unparse(_FlipGt().visit(t)).replace("__mv_", "$")
+
+
+def _flip_stmts(stmts):
+    import copy
+    out = []
+    for txt, n in stmts:
+        if ">" in txt and isinstance(n, ast.AST):
+            try:
+                if isinstance(n, (ast.If, ast.While)) and txt.startswith(("if: ", "while: ")):
+                    txt = txt.split(": ", 1)[0] + ": " + norm(_FlipGt().visit(copy.deepcopy(n.test)))
+                elif isinstance(n, ast.stmt) and not isinstance(n, (ast.If, ast.While, ast.For)) and txt == norm(n):
+                    txt = norm(_FlipGt().visit(copy.deepcopy(n)))
+            except Exception:
+                pass
+        out.append((txt, n))
+    return out
 
 
 def _split_parallel_pattern(p_: str) -> List[str]:
